@@ -994,7 +994,7 @@ class Stats:
 class Explorer:
     symbolic = True
 
-    def __init__(self, rlimit=30_000_000, max_paths=100000, max_decisions=600, max_violations=1,
+    def __init__(self, rlimit=30_000_000, max_paths=100000, max_decisions=3000, max_violations=1,
                  deadline_s=None, known=None, seed=0, cap=None):
         self.cap = cap
         self.solver = z3.Solver()
